@@ -348,6 +348,9 @@ pub use crate::parser_state::{
     set_call_limit, set_error_detail, state, Atomicity, Lookahead, MatchDir, ParseResult,
     ParserState,
 };
+#[cfg(pest_parser_pest_verif)]
+#[doc(hidden)]
+pub use crate::parser_state::VerifObservation;
 pub use crate::position::Position;
 pub use crate::span::{merge_spans, Lines, LinesSpan, Span};
 pub use crate::stack::Stack;
